@@ -184,8 +184,98 @@ def check_nonkripke(inp):
     return None
 
 
+def check_derived(inp):
+    """Objects obtained by other routes than the constructors still belong to their logic:
+    operator overloading (f & g, f | g, ~f, True & f), clone(), a cast of a cast, a cast of a
+    parser's output, and re-use of one operand object in two parents."""
+    t = fm.from_json(inp['t'])
+    langname = inp['lang']
+    L = fm.lang(langname)
+    member = fm.kind(langname, t) is not None
+    k = t[0]
+
+    def judge(what, fn, tree, lang=langname, strict=True):
+        mem = fm.kind(lang, tree) is not None
+        try:
+            o = fn()
+        except TypeError:
+            return None if not mem or what.startswith('cast') else Failure(
+                'derived', inp, 'a %s object' % lang, 'TypeError', what)
+        except Exception as e:
+            return Failure('derived', inp, 'a %s object or TypeError' % lang,
+                           'raised %s: %s' % (type(e).__name__, str(e)[:100]), what)
+        if not mem:
+            return Failure('derived', inp, 'TypeError (not a %s formula)' % lang, 'returned %r' % (o,), what)
+        p = inspect_obj(o, tree, lang, strict=strict)
+        if p:
+            return Failure('derived', inp, 'an object of %s with tree %r' % (lang, tree), p, what)
+        return None
+
+    # operator overloading on the children (built in the same language)
+    if k in ('and', 'or') and len(t) == 3 or k == 'not':
+        kids = [build(c, langname) for c in t[1:]]
+        if all(r[0] == 'ok' for r in kids):
+            objs = [r[1] for r in kids]
+            if k == 'not':
+                f = judge('~f', lambda: ~objs[0], t)
+            elif k == 'and':
+                f = judge('f & g', lambda: objs[0] & objs[1], t)
+                if f is None and t[1][0] in ('true', 'false'):
+                    f = judge('bool & g', lambda: (t[1][0] == 'true') & objs[1], t)
+                if f is None and t[2][0] in ('true', 'false'):
+                    f = judge('f & bool', lambda: objs[0] & (t[2][0] == 'true'), t)
+            else:
+                f = judge('f | g', lambda: objs[0] | objs[1], t)
+                if f is None and t[1][0] in ('true', 'false'):
+                    f = judge('bool | g', lambda: (t[1][0] == 'true') | objs[1], t)
+            if f is not None:
+                return f
+    r = build(t, langname)
+    if r[0] != 'ok':
+        return None
+    obj = r[1]
+    f = judge('clone()', lambda: obj.clone(), t)
+    if f is not None:
+        return f
+    # the same operand object under two parents, the second in another language
+    for other in LANGS:
+        if other == langname:
+            continue
+        Lo = fm.lang(other)
+        cls = getattr(Lo, 'Not', None)
+        f = judge('%s.Not(<%s object>)' % (other, langname), lambda: cls(obj), ('not', t), other, strict=False)
+        if f is not None:
+            return f
+        # a cast of a cast
+        f = judge('cast_to(%s) of the object' % other, lambda: obj.cast_to(Lo), t, other)
+        if f is not None:
+            return f
+        if fm.kind(other, t) is not None:
+            mid = obj.cast_to(Lo)
+            f = judge('cast back to %s of cast_to(%s)' % (langname, other), lambda: mid.cast_to(L), t, langname)
+            if f is not None:
+                return f
+    if fm.structure(obj) != t:
+        return Failure('derived', inp, 'source object unchanged', list(fm.structure(obj)))
+    # a parser's output cast into the other languages
+    if member and langname != 'CTL' and all(fm.is_identifier(a) and a not in fm.RESERVED for a in fm.atoms(t)):
+        try:
+            from .c09 import parser as cached_parser
+            parsed = cached_parser(langname)(fm.to_text(t))
+        except Exception:
+            parsed = None
+        if parsed is not None and fm.structure(parsed) == t:
+            for other in LANGS:
+                if other != langname:
+                    f = judge('cast_to(%s) of the %s parser output' % (other, langname),
+                              lambda: parsed.cast_to(fm.lang(other)), t, other)
+                    if f is not None:
+                        return f
+    return None
+
+
 CHECKS = {'construct': check_construct, 'cast': check_cast, 'guard': check_guard,
-          'nonkripke': check_nonkripke}
+          'nonkripke': check_nonkripke, 'derived': check_derived}
 
 
 def replay(ctx, rec):
@@ -242,6 +332,15 @@ def enum_shard(st, shard, nshards, payload):
             st.nontrivial += 1
             if idx % 401 == 0:
                 st.sample({'t': t, 'kinds': kinds}, cls='%s' % sorted(k for k in kinds if kinds[k]))
+        if not deep and idx % payload.get('derived_stride', 1) == 0:
+            for l in built:
+                st.evaluations += 1
+                st.bump('derived objects (overloading, clone, cast chains, parser output)')
+                f = check_derived({'t': t, 'lang': l})
+                if f is not None:
+                    if st.failure is None:
+                        st.failure = f
+                    return
         # casts between every ordered pair of languages where the source exists
         if not deep or idx % 8 == 0:
             for src in built:
@@ -283,7 +382,9 @@ def run(ctx):
                 'construction for every ordered language pair return an object of the target logic '
                 'with the same tree or raise TypeError (never an object outside the target); '
                 'modelcheck of every checker on every constructed object that is not a state '
-                'formula of that checker raises TypeError; non-Kripke first arguments raise '
+                'formula of that checker raises TypeError; objects obtained through operator overloading (&, |, ~, bool '
+                'operands), clone(), a cast of a cast, a cast of a parser\'s output or as operand of a sibling '
+                'language\'s constructor obey the same membership rule; non-Kripke first arguments raise '
                 'TypeError.  Non-trivial = tree with a quantifier or temporal operator that belongs '
                 'to some but not all of the four languages.')
     st = ctx.stats
@@ -296,7 +397,7 @@ def run(ctx):
                 return
     ctx.scopes = ['all 5986 trees of depth <= 2 over {true,p} x 4 languages x {construct, cast, mixed, modelcheck guard}']
     ctx.exhaustive = True
-    f = core.run_sharded(ctx, enum_shard, {'scope': 'd2'})
+    f = core.run_sharded(ctx, enum_shard, {'scope': 'd2', 'derived_stride': ctx.pick(3, 1)})
     if f is not None:
         ctx.violation(f)
         return
@@ -347,6 +448,10 @@ def random_shard(st, shard, nshards, payload):
                     f = check_cast({'t': t, 'src': src, 'dst': dst})
                     if f is not None:
                         return f
+            if fm.size(t) <= 12:
+                f = check_derived({'t': t, 'lang': src})
+                if f is not None:
+                    return f
         if fm.temporal_count(t) <= 3:
             for checker in CHECKERS:
                 if fm.kind(checker, t) != 'state':
